@@ -59,13 +59,17 @@ impl ValidatedShred {
 
         match cached_commitment {
             Some(cached) => {
-                if cached == &msg {
+                // only the very signature verified before may skip verification,
+                // otherwise garbled signature bytes would be stored and served
+                if cached == &msg && cached.is_verified_signature(&shred.slice_sig) {
                     return Ok(Self { shred, slice_root });
                 }
-                if shred.slice_sig.verify_bytes(msg.as_ref(), pk) {
-                    Err(ShredValidationError::Equivocation)
-                } else {
+                if !shred.slice_sig.verify_bytes(msg.as_ref(), pk) {
                     Err(ShredValidationError::InvalidSignature)
+                } else if cached == &msg {
+                    Ok(Self { shred, slice_root })
+                } else {
+                    Err(ShredValidationError::Equivocation)
                 }
             }
             None => {
@@ -96,6 +100,7 @@ impl ValidatedShred {
     #[must_use]
     pub fn commitment(&self) -> SliceCommitment {
         SliceCommitment::new(&self.shred.payload().header, &self.slice_root)
+            .with_verified_signature(self.shred.slice_sig)
     }
 
     /// Returns the cached Merkle root of the slice this shred belongs to.
